@@ -1484,3 +1484,275 @@ Proof.
   - rewrite (force_in_caller_env (S n) c s (EVar x) env _ _ Ht eq_refl Hev). reflexivity.
   - rewrite (force_in_caller_env (S n) c s (EVar x) env _ _ Ht eq_refl Hev). reflexivity.
 Qed.
+
+
+(* ================================================================= 14. self tail call route, formals passed on, substitute after force *)
+
+
+Lemma tail_prep_args_eq : forall ev env es flags s,
+  strict_cc flags es = true ->
+  tail_prep_args ev env flags es s = prep_args ev env flags es s.
+Proof.
+  intros ev env es. induction es as [|e r IH]; intros flags s H; [reflexivity|].
+  simpl in H. apply andb_true_iff in H. destruct H as [H1 H2].
+  simpl. unfold prep_arg. destruct (hd false flags); simpl in H1.
+  - unfold bindM, on_result. destruct (new_thunk (TSrc e env) None s) as [[v|g|] s1]; auto.
+    rewrite IH by exact H2. reflexivity.
+  - rewrite H1. unfold bindM, on_result. destruct (ev env e s) as [[v|g|] s1]; auto.
+    rewrite IH by exact H2. reflexivity.
+Qed.
+
+Theorem self_tail_route_is_call_route : forall ev ap env x fv args s,
+  ev env (EVar x) s = (Done fv, s) ->
+  (exists nm ps rest body cenv, fv = VClos nm ps rest body cenv) ->
+  strict_cc (lazy_flags fv) args = true ->
+  self_tail_call ev ap env fv fv args s = call_expr ev ap env (EVar x) args s.
+Proof.
+  intros ev ap env x fv args s Hf (nm & ps & rest & body & cenv & E) Hcc.
+  unfold self_tail_call, call_expr. rewrite (bind_done _ _ _ _ _ _ _ Hf). subst fv.
+  apply bind_at. apply tail_prep_args_eq. exact Hcc.
+Qed.
+
+(* lookup depends only on the frames of the captured chain *)
+Lemma lookup_chain_local : forall fs fs' env x,
+  (forall f, In f env -> nth_error fs f = nth_error fs' f) ->
+  lookup_chain fs env x = lookup_chain fs' env x.
+Proof.
+  intros fs fs' env x. induction env as [|f env IH]; intros H; [reflexivity|].
+  simpl. rewrite <- (H f (or_introl eq_refl)).
+  rewrite IH by (intros g Hg; apply H; right; exact Hg). reflexivity.
+Qed.
+
+Theorem force_variable_ignores_dynamic_context : forall n c s s' x env,
+  nth_error (thunks s) c = Some (mkThunk (TSrc (EVar x) env) None) ->
+  nth_error (thunks s') c = Some (mkThunk (TSrc (EVar x) env) None) ->
+  (forall f, In f env -> nth_error (frames (core s)) f = nth_error (frames (core s')) f) ->
+  fst (apply (S (S n)) (VPrim PForce) [VThunk c] s) = fst (apply (S (S n)) (VPrim PForce) [VThunk c] s').
+Proof.
+  intros n c s s' x env H1 H2 Hf.
+  rewrite (force_variable_is_lexical_lookup n c s x env H1), (force_variable_is_lexical_lookup n c s' x env H2).
+  rewrite (lookup_chain_local _ _ env x Hf).
+  destruct (lookup_chain (frames (core s')) env x) as [[f v]|]; reflexivity.
+Qed.
+
+(* innermost binding of the captured chain wins: a global of the same name is not seen *)
+Theorem force_variable_innermost_binding : forall n c s x f env fr v,
+  nth_error (thunks s) c = Some (mkThunk (TSrc (EVar x) (f :: env)) None) ->
+  nth_error (frames (core s)) f = Some fr -> assoc x fr = Some v ->
+  fst (apply (S (S n)) (VPrim PForce) [VThunk c] s) = Done v.
+Proof.
+  intros n c s x f env fr v Ht Hf Ha.
+  rewrite (force_variable_is_lexical_lookup n c s x (f :: env) Ht). simpl. rewrite Hf, Ha. reflexivity.
+Qed.
+
+(* substitute after any evaluation (in particular after forces of the same cell) *)
+Theorem substitute_after_evaluation : forall n k c s t e env d env0 e0 r s1,
+  nth_error (thunks s) c = Some t -> t_src t = TSrc e env -> expr_datum e = Some d ->
+  eval n env0 e0 s = (r, s1) ->
+  apply (S k) (VPrim PSubst) [VThunk c] s1 = (Done d, touch c s1).
+Proof.
+  intros n k c s t e env d env0 e0 r s1 Ht Hs Hd He.
+  destruct (eval_keeps n env0 e0 _ _ _ He) as (_ & _ & K).
+  destruct (K _ _ Ht) as (t' & Ht' & Hs' & _).
+  apply (substitute_returns_source k c s1 t' e env d Ht'); [rewrite Hs'; exact Hs | exact Hd].
+Qed.
+
+Theorem substitute_after_force : forall n k c s t e env d r s1,
+  nth_error (thunks s) c = Some t -> t_src t = TSrc e env -> expr_datum e = Some d ->
+  apply n (VPrim PForce) [VThunk c] s = (r, s1) ->
+  apply (S k) (VPrim PSubst) [VThunk c] s1 = (Done d, touch c s1).
+Proof.
+  intros n k c s t e env d r s1 Ht Hs Hd He.
+  destruct (apply_keeps n _ _ _ _ _ He) as (_ & _ & K).
+  destruct (K _ _ Ht) as (t' & Ht' & Hs' & _).
+  apply (substitute_returns_source k c s1 t' e env d Ht'); [rewrite Hs'; exact Hs | exact Hd].
+Qed.
+
+(* ---- a formal passed on: (g #x) / the self tail call (f #x ..) wrap the SYMBOL again ---- *)
+
+Definition chain_head (cs : list nat) (v0 : value) : value :=
+  match cs with [] => v0 | c :: _ => VThunk c end.
+
+Fixpoint rewrap_chain (s : store) (cs : list nat) (v0 : value) : Prop :=
+  match cs with
+  | [] => True
+  | c :: r => (exists x env, nth_error (thunks s) c = Some (mkThunk (TSrc (EVar x) env) None) /\
+                 option_map snd (lookup_chain (frames (core s)) env x) = Some (chain_head r v0)) /\
+              ~ In c r /\ rewrap_chain s r v0
+  end.
+
+Lemma rewrap_chain_transfer : forall s s1 cs v0,
+  core s1 = core s -> (forall c, In c cs -> nth_error (thunks s1) c = nth_error (thunks s) c) ->
+  rewrap_chain s cs v0 -> rewrap_chain s1 cs v0.
+Proof.
+  intros s s1 cs v0 Hc. induction cs as [|c r IH]; intros Ht H; [exact I|].
+  destruct H as ((x & env & H1 & H2) & Hn & Hr). split; [|split].
+  - exists x, env. rewrite Hc, (Ht c (or_introl eq_refl)). auto.
+  - exact Hn.
+  - apply IH; [|exact Hr]. intros c' Hc'. apply Ht. right. exact Hc'.
+Qed.
+
+Lemma finished_core : forall c v s, core (finished c v s) = core s.
+Proof. intros. unfold finished, finish_force. destruct (nth_error (thunks s) c); reflexivity. Qed.
+
+Lemma finished_other : forall c v s c', c' <> c ->
+  nth_error (thunks (finished c v s)) c' = nth_error (thunks s) c'.
+Proof.
+  intros. unfold finished, finish_force. destruct (nth_error (thunks s) c); [|reflexivity].
+  simpl. apply nth_error_set_nth_other. congruence.
+Qed.
+
+Theorem force_through_rewrapped : forall n cs s v0,
+  rewrap_chain s cs v0 ->
+  exists s', force_n (S (S n)) (length cs) (chain_head cs v0) s = (Done v0, s') /\
+             core s' = core s /\
+             (forall c, ~ In c cs -> nth_error (thunks s') c = nth_error (thunks s) c).
+Proof.
+  intros n cs. induction cs as [|c r IH]; intros s v0 H.
+  - exists s. simpl. auto.
+  - destruct H as ((x & env & H1 & H2) & Hn & Hr).
+    pose proof (force_variable_is_lexical_lookup n c s x env H1) as F.
+    destruct (lookup_chain (frames (core s)) env x) as [[f v]|]; [|discriminate].
+    simpl in H2. injection H2 as H2. subst v.
+    set (s1 := finished c (chain_head r v0) (started c s)) in *.
+    destruct (started_same c s) as (Ec & Et & _).
+    assert (C1 : core s1 = core s) by (unfold s1; rewrite finished_core; exact Ec).
+    assert (T1 : forall c', c' <> c -> nth_error (thunks s1) c' = nth_error (thunks s) c').
+    { intros c' Hc'. unfold s1. rewrite finished_other by exact Hc'. rewrite Et. reflexivity. }
+    assert (R1 : rewrap_chain s1 r v0).
+    { apply (rewrap_chain_transfer s); auto. intros c' Hc'. apply T1. intro; subst; auto. }
+    destruct (IH s1 v0 R1) as (s' & F' & C' & T').
+    exists s'. split; [|split].
+    + change (force_n (S (S n)) (length (c :: r)) (chain_head (c :: r) v0) s)
+        with (bindM (apply (S (S n)) (VPrim PForce) [VThunk c]) (fun w => force_n (S (S n)) (length r) w) s).
+      rewrite (bind_done _ _ _ _ _ _ _ F). exact F'.
+    + congruence.
+    + intros c' Hc'. rewrite T' by (intro; apply Hc'; right; assumption).
+      apply T1. intro; subst; apply Hc'; left; reflexivity.
+Qed.
+
+Theorem passed_on_argument_forced_in_original_env : forall n m cs s c0 e env0,
+  rewrap_chain s cs (VThunk c0) -> ~ In c0 cs ->
+  nth_error (thunks s) c0 = Some (mkThunk (TSrc e env0) None) -> cc [] e = true ->
+  exists s', force_n (S (S n)) (length cs) (chain_head cs (VThunk c0)) s = (Done (VThunk c0), s') /\
+             core s' = core s /\
+             forall r s1, eval m env0 e (started c0 s') = (r, s1) ->
+               apply (S m) (VPrim PForce) [VThunk c0] s' =
+               match r with Done v => (Done v, finished c0 v s1) | _ => (r, s1) end.
+Proof.
+  intros n m cs s c0 e env0 Hch Hn Ht Hcc.
+  destruct (force_through_rewrapped n cs s _ Hch) as (s' & F & C & T).
+  exists s'. split; [exact F|]. split; [exact C|].
+  intros r s1 He. apply (force_in_caller_env m c0 s' e env0 r s1); auto.
+  rewrite (T c0 Hn). exact Ht.
+Qed.
+
+(* (defn lp [#x n] (cond (== n 0) (list (substitute #x) (force (force (force #x)))) (lp #x (- n 1))))
+   (def a 5) (lp (trace (+ a 1)) 2): the formal is passed on twice (in the real code by the self tail
+   call route); the argument is evaluated once, by the third force; substitute shows the symbol *)
+Definition pass_on_prog (forces : nat) : list expr :=
+  let lp := 1001 in let x := 1002 in let n := 1003 in let a := 1004 in
+  [ EDefn lp [(x, true); (n, false)] None
+      [ECond [(pcall PEq [EVar n; EInt 0],
+               pcall PList [pcall PSubst [EVar x];
+                            Nat.iter forces (fun e => pcall PForce [e]) (EVar x)])]
+             (ECall (EVar lp) [EVar x; pcall PSub [EVar n; EInt 1]])];
+    EDef a (EInt 5);
+    ECall (EVar lp) [pcall PTrace [pcall PAdd [EVar a; EInt 1]]; EInt 2] ].
+
+Lemma pass_on_prog_three_forces :
+  eval_program 60 (pass_on_prog 3) = mkOutcome (Done (SvPair (SvSym 1002) (SvPair (SvInt 6) SvNil))) [[SvInt 6]].
+Proof. vm_compute. reflexivity. Qed.
+Lemma pass_on_prog_one_force :
+  eval_program 60 (pass_on_prog 1) = mkOutcome (Done (SvPair (SvSym 1002) (SvPair SvThunk SvNil))) [].
+Proof. vm_compute. reflexivity. Qed.
+
+(* (def w 7) (defn recv [#x] (force #x)) (defn caller [] (recv w)) (defn outer [w] (caller)) (outer 8):
+   the global, not the formal of the caller's caller *)
+Definition lexical_var_prog : list expr :=
+  let w := 1001 in let recv := 1002 in let x := 1003 in let caller := 1004 in let outer := 1005 in
+  [ EDef w (EInt 7);
+    EDefn recv [(x, true)] None [pcall PForce [EVar x]];
+    EDefn caller [] None [ECall (EVar recv) [EVar w]];
+    EDefn outer [(w, false)] None [ECall (EVar caller) []];
+    ECall (EVar outer) [EInt 8] ].
+Lemma lexical_var_prog_outcome : eval_program 40 lexical_var_prog = mkOutcome (Done (SvInt 7)) [].
+Proof. vm_compute. reflexivity. Qed.
+
+(* the finding tail-known-fn on the model of the tail route: the function known under the name
+   has a lazy first formal, the function jumped into a strict one: the strict formal holds a
+   thunk made by the call mechanism *)
+Lemma self_tail_known_mismatch :
+  let known := VClos (Some 1001) [(1002, true)] None [EInt 0] [O] in
+  let self := VClos (Some 1001) [(1003, false)] None [EVar 1003] [O] in
+  fst (self_tail_call (eval 10) (apply 10) [O] known self [pcall PTrace [EInt 1]] (init_store 0))
+  = Done (VThunk 0).
+Proof. vm_compute. reflexivity. Qed.
+
+Theorem call_by_symbol_is_call_route : forall ev ap env x fv args s,
+  ev env (EVar x) s = (Done fv, s) ->
+  (exists nm ps rest body cenv, fv = VClos nm ps rest body cenv) ->
+  strict_cc (lazy_flags fv) args = true ->
+  call_by_symbol ev ap env x fv fv args s = call_expr ev ap env (EVar x) args s.
+Proof.
+  intros. unfold call_by_symbol. destruct (tail_arity_ok fv (length args)); [|reflexivity].
+  apply self_tail_route_is_call_route; assumption.
+Qed.
+
+(* ================================================================= 15. conservativity at the call mechanism *)
+
+(* ---- functions without lazy formals are called as in the evaluator without laziness ---- *)
+
+Definition strict_unit (ev : list nat -> expr -> M value) : list nat -> expr -> M value :=
+  fun env e => if cc [] e then ev env e else raise ELoop.
+
+Lemma no_lazy_tl : forall flags, forallb negb flags = true ->
+  hd false flags = false /\ forallb negb (tl flags) = true.
+Proof.
+  intros [|b r] H; simpl in *; auto. apply andb_true_iff in H. destruct H as [H1 H2].
+  destruct b; simpl in *; [discriminate|auto].
+Qed.
+
+Theorem strict_function_call_is_plain : forall ev env es flags s,
+  forallb negb flags = true ->
+  prep_args ev env flags es s = ev_list (strict_unit ev) env es s.
+Proof.
+  intros ev env es. induction es as [|e r IH]; intros flags s H; [reflexivity|].
+  destruct (no_lazy_tl flags H) as [H1 H2]. simpl. unfold prep_arg. rewrite H1.
+  fold (strict_unit ev env e). unfold bindM, on_result.
+  destruct (strict_unit ev env e s) as [[v|g|] s1]; auto. rewrite IH by exact H2. reflexivity.
+Qed.
+
+Lemma wrap_args_no_lazy : forall vs flags s, forallb negb flags = true ->
+  wrap_args flags vs s = (Done vs, s).
+Proof.
+  induction vs as [|v r IH]; intros flags s H; [reflexivity|].
+  destruct (no_lazy_tl flags H) as [H1 H2]. simpl. unfold wrap_arg. rewrite H1.
+  unfold bindM, on_result, ret, pure. rewrite IH by exact H2. reflexivity.
+Qed.
+
+Theorem strict_function_apply_is_plain : forall ap f vs s,
+  forallb negb (lazy_flags f) = true -> ap_values ap f vs s = ap f vs s.
+Proof.
+  intros ap f vs s H. unfold ap_values, bindM, on_result. rewrite wrap_args_no_lazy by exact H. reflexivity.
+Qed.
+
+(* in particular: no cell is allocated by the call mechanism itself *)
+Theorem strict_function_call_allocates_nothing : forall ev env es flags s,
+  forallb negb flags = true ->
+  (forall env e s r s1, ev env e s = (r, s1) -> thunks s1 = thunks s) ->
+  forall r s1, prep_args ev env flags es s = (r, s1) -> thunks s1 = thunks s.
+Proof.
+  intros ev env es. induction es as [|e r IH]; intros flags s H Hev rr s1 Hp.
+  - inversion Hp. reflexivity.
+  - destruct (no_lazy_tl flags H) as [H1 H2]. simpl in Hp. unfold prep_arg in Hp. rewrite H1 in Hp.
+    unfold bindM, on_result in Hp.
+    destruct (cc [] e).
+    + destruct (ev env e s) as [[v|g|] s2] eqn:E.
+      * destruct (prep_args ev env (tl flags) r s2) as [[vs|g|] s3] eqn:E2;
+          (assert (s1 = s3) by (inversion Hp; reflexivity)); subst s3;
+          (transitivity (thunks s2); [eapply IH; eauto | eapply Hev; eauto]).
+      * assert (s1 = s2) by (inversion Hp; reflexivity). subst. eapply Hev; eauto.
+      * assert (s1 = s2) by (inversion Hp; reflexivity). subst. eapply Hev; eauto.
+    + inversion Hp. reflexivity.
+Qed.
